@@ -196,6 +196,39 @@ func checkC19(c *Ctx) {
 			})
 			recount = nInit == 1 && nAcc == 1 && bad == 0
 		}
+		// the bytes adopted are the bytes given, position for position: byte i holds ids 8i+1..8i+8, so dropping or
+		// inserting leading bytes renumbers every member (trailing zero bytes may be cut: they hold no member)
+		{
+			kf := NewKeyer(p, fb)
+			var got []string
+			okData := false
+			eachInstr(fb, func(in ssa.Instruction) {
+				st, isSt := in.(*ssa.Store)
+				if !isSt {
+					return
+				}
+				fa, isFA := st.Addr.(*ssa.FieldAddr)
+				if !isFA || fieldName(fa.X.Type(), fa.Field) != kBF+"data" {
+					return
+				}
+				k := kf.Key(st.Val)
+				got = append(got, k)
+				switch {
+				case k == "p0",
+					strings.HasPrefix(k, "slices.Clone[") && strings.HasSuffix(k, "(p0)"),
+					strings.HasPrefix(k, "bytes.Clone(p0)"),
+					strings.HasPrefix(k, "bytes.TrimRight(p0, "),
+					strings.HasPrefix(k, "builtin append(") && strings.Contains(k, ", p0)"):
+					okData = true
+				default:
+					okData = false
+					got = append(got, "(not the given bytes)")
+				}
+			})
+			c.Check(okData, "C19.2", "BitfieldFromBytes: adopts the given bytes position for position", p.FuncPos(fb),
+				"data := the byte string given (itself or a copy; trailing zero bytes may be cut)",
+				"data is "+join(got)+": byte i of the set is no longer byte i of the input, so every id shifts by a multiple of 8 (a restored BLS aggregate is attributed to other replicas)")
+		}
 		c.Check(recount, "C19.2", "BitfieldFromBytes: len recounted from the bytes", p.FuncPos(fb), "len is the number of set bits of the given bytes (one ForEach callback per set bit, or the sum of bits.OnesCount8 over the bytes)", "no recount found")
 	}
 
